@@ -141,7 +141,7 @@ func buildHandDoc(spec docSpec) (*document, error) {
 	case "wrong-length":
 		data := []byte("data of a stream whose declared length is seven bytes too large\n")
 		objs = append(objs, pdffile.ObjDef{Num: 4, Val: pdfsyn.DictV("Note", pdfsyn.StrV("stream dictionary string")), Stream: data, LengthOverride: iv(pdfsyn.IntV(int64(len(data) + 7)))})
-	case "hybrid", "two-tables":
+	case "hybrid", "two-tables", "indirect-id":
 		objs = append(objs, pdffile.ObjDef{Num: 4, Val: pdfsyn.DictV("Note", pdfsyn.StrV("stream dictionary string")), Stream: []byte("BT (content) Tj ET\n")})
 	default:
 		return nil, fmt.Errorf("unknown hand-built document %q", spec.Hand)
@@ -150,6 +150,10 @@ func buildHandDoc(spec docSpec) (*document, error) {
 	rev := pdffile.Revision{Kind: "table", Objs: objs, Trailer: []pdfsyn.Entry{{Key: []byte("Root"), Val: pdfsyn.RefV(1, 0)}}}
 	revs := []pdffile.Revision{rev}
 	switch spec.Hand {
+	case "indirect-id":
+		// the trailer's /ID is an indirect reference: opening the file has to fetch one more object
+		revs[0].Objs = append(revs[0].Objs, pdffile.ObjDef{Num: 9, Val: pdfsyn.ArrV(pdfsyn.StrV("0123456789abcdef"), pdfsyn.StrV("fedcba9876543210"))})
+		revs[0].Trailer = append(revs[0].Trailer, pdfsyn.Entry{Key: []byte("ID"), Val: pdfsyn.RefV(9, 0)})
 	case "hybrid":
 		// a hybrid-reference file: the objects in the object stream are listed only in the
 		// cross-reference stream that /XRefStm points to
@@ -330,7 +334,8 @@ func docSpecs(thorough bool) []docSpec {
 		docSpec{Name: "handbuilt-no-length-data-ends-CR", V: pdf.V1_7, Hand: "no-length-crlf"},
 		docSpec{Name: "handbuilt-wrong-length", V: pdf.V1_7, Hand: "wrong-length"},
 		docSpec{Name: "handbuilt-hybrid-reference", V: pdf.V1_7, Hand: "hybrid"},
-		docSpec{Name: "handbuilt-two-classic-revisions", V: pdf.V1_7, Hand: "two-tables"})
+		docSpec{Name: "handbuilt-two-classic-revisions", V: pdf.V1_7, Hand: "two-tables"},
+		docSpec{Name: "handbuilt-indirect-trailer-ID", V: pdf.V1_7, Hand: "indirect-id"})
 	add("table-human", pdf.V1_7, true, 1, "")
 	add("table-rc4", pdf.V1_4, false, 1, "secret")
 	add("xrefstream-aes128", pdf.V1_7, false, 2, "secret")
